@@ -578,4 +578,5 @@ func c07Spaces(c *fw.Ctx) {
 	c07ReadFaultSpace(c)
 	c07ErrorPositionSpace(c)
 	c07DryDirectiveSpace(c)
+	c07CutShortSpace(c)
 }
